@@ -31,6 +31,7 @@ structure DS where
   total : Nat := 0
   files : Option (List FileEnt) := none
   index : Nat := 0
+  infl : List Nat := []     -- blocks of the piece marked in flight (never released by the harness)
 
 def fixedCode : Bool := true
 
@@ -225,14 +226,16 @@ def step (d : DS) (ws : List String) : DS × String :=
             s!"req={reqs} log={lg} data={dataSum out.evs} drop={dropStr out.evs}")
       | none => (d, "bad-op")
     | _, _ => (d, "bad-op")
-  | ["g.maybe"] =>
-    match maybeRange d.st with
+  | ["g.maybe", mode] =>
+    if mode != "h" && mode != "e" then (d, "bad-op") else
+    match maybeRange d.st d.infl 0 with
     | none => (d, "ok=0 res=- data=0 drop=none")
     | some (o, l) =>
       let fcs := fileChunks d.ps d.total d.files d.index o l
-      -- every server answers honestly
+      -- every server answers honestly (mode h) or with 404 (mode e)
       let rs : List Resp := fcs.map fun fc =>
         if fc.pad then Resp.pad
+        else if mode == "e" then Resp.http 404 [] [] [([110, 111], RErr.eof)]
         else
           let fileBase : Nat := match d.files with
             | none => 0
@@ -244,8 +247,8 @@ def step (d : DS) (ws : List String) : DS × String :=
       if out.panic then ({ d with st := st }, "panic")
       else
         let res := reserve o l
-        ({ d with st := st },
-          s!"ok=1 res={res.headD 0}+{res.length} data={dataSum out.evs} drop={dropStr out.evs}")
+        ({ d with st := st, infl := d.infl ++ res },
+          s!"ok=1 res={res.headD 0}+{res.length} log={if out.log.isEmpty then "-" else ",".intercalate out.log} data={dataSum out.evs} drop={dropStr out.evs}")
   | ["h.fetch", offset, length, resp] =>
     match offset.toNat?, length.toNat?, resp.splitOn ";" with
     | some o, some l, [sts, cls, ln, jk, fin] =>
